@@ -24,7 +24,7 @@ struct Alloc {
 	uint64_t fail_at = 0;           // 1-based index of the allocation to fail (0: none)
 	bool fail_from = false;         // fail fail_at and all later
 	std::vector<uint8_t> fail_mask; // bit k-1 set => k-th allocation fails (if non-empty)
-	uint64_t failed = 0;            // failures delivered
+	std::atomic<uint64_t> failed{0};   // failures delivered (atomic: harnesses read it while worker threads allocate)
 	bool double_free = false, unknown_free = false;
 	bool poison = true;
 
